@@ -116,7 +116,7 @@ def genElemMaps (pb : List PbField) (version : Nat) : G (List ElemMap) := do
   for i in [0:n] do
     let pp ← if version = 10 then chance 1 2 else pure false
     -- enterprise number 0 with the enterprise bit is not the IANA registry: its own key
-    let pen ← if pp then pick [0, 0, 9, 2636, 29305] else pure 0
+    let pen ← if pp then pick [0, 0, 9, 2636, 29305, 68172, 65536, 4294967295] else pure 0
     -- an enterprise statement may use the element id of an IANA statement of the same file (different keys)
     let shared ← chance 1 2
     let earlier := (out.filter fun m => !m.penProvided).map (·.type)
@@ -162,7 +162,9 @@ def genElemRound (i : Nat) : G (List String) := do
     if version = 10 ∧ (← chance 1 2) then
       -- same element id under another enterprise number (or none): not matched
       let coin ← chance 2 3
-      let other : Option Nat := if m.penProvided then some (m.pen + 1) else (if coin then some 0 else some 77)
+      -- (another enterprise number: the next one, or one that differs only above its low 16 bits)
+      let far ← chance 1 2
+      let other : Option Nat := if m.penProvided then some (if far then (m.pen + 65536) % 4294967296 else (m.pen + 1) % 4294967296) else (if coin then some 0 else some 77)
       -- … unless another statement of the file has exactly that key
       if !(maps.any fun m' => m'.penProvided ∧ some m'.pen = other ∧ m'.type = m.type) then
         fields := fields ++ [(⟨m.type, ← range 1 8, other⟩, none)]
